@@ -342,6 +342,158 @@ def concLine (w : List String) : String :=
     concDir "a>b" seed 0 (specSizes (get "SA=")) ++ " | " ++ concDir "b>a" seed 1 (specSizes (get "SB="))
   | _ => "bad-op"
 
+
+/-! ## accept / incoming -/
+
+open Compio.MultiStream in
+def acceptLine (w : List String) : String :=
+  match w with
+  | ["accept", _, drv, mode, k, extra] =>
+    let k := k.toNat?.getD 0
+    let extra := extra.toNat?.getD 0
+    let all := List.range (k + extra)
+    -- io_uring multishot accept: one submission takes every queued connection; otherwise one
+    -- single-shot accept per connection
+    let subs : List (List ACqe) :=
+      if drv = "uring" ∧ mode = "incoming" then [all.map fun i => ⟨.fd i, true⟩]
+      else all.map fun i => [⟨.fd i, false⟩]
+    let s := (Inc.take k (Inc.new subs)).2.drop
+    s!"ids={",".intercalate (s.yielded.map toString)} closed={s.closed.length}"
+  | _ => "bad-op"
+
+/-! ## `io_uring_recvmsg_out` parser on crafted buffers -/
+
+open Compio.RecvMsgOut in
+def rmoLine (w : List String) : String :=
+  match w with
+  | ["rmopen", _] => "ok"
+  | ["rmo", clen, h] =>
+    match clen.toNat?, parseHex h with
+    | some clen, some buf =>
+      match RecvMsgOut.new buf clen with
+      | .ok p =>
+        let data := match p.data with | .ok d => hexOf d | _ => "panic"
+        let anc := match p.ancillary with | .ok a => hexOf a | _ => "panic"
+        let addr := match p.addr with
+          | .ok none => "-" | .ok (some a) => hexOf a | .panic => "panic" | .ub => "ub"
+        s!"data={data} anc={anc} addr={addr} flags={p.flags}"
+      | _ => "new=panic"
+    | _, _ => "bad-op"
+  | _ => "bad-op"
+
+/-! ## the stream adapter under kernel events: a small simulation of what the kernel posts -/
+
+section Ms
+open Compio.MultiStream
+
+structure KS where
+  drv : Drv
+  chunk : Nat          -- bytes per completion: min(len or buffer size, buffer size)
+  free : Nat           -- pool buffers not in use
+  sockq : Bytes        -- bytes queued in the socket
+  eof : Bool
+  armed : Bool         -- an operation is in flight
+  held : Nat
+  hold : Bool
+
+/-- what the kernel posts for the operation in flight (assumed kernel behaviour):
+io_uring multishot recv fills one provided buffer per completion while data is queued, ends with
+`-ENOBUFS` when the ring is empty and with 0 at end of stream; the polling fallback completes once -/
+def kernelRun : Nat → KS → KS × List Cqe
+  | 0, ks => (ks, [])
+  | fuel + 1, ks =>
+    if ¬ ks.armed then (ks, [])
+    else if ¬ ks.sockq.isEmpty then
+      let c := ks.sockq.take ks.chunk
+      match ks.drv with
+      | .uring =>
+        if ks.free > 0 then
+          let (ks', r) := kernelRun fuel { ks with free := ks.free - 1, sockq := ks.sockq.drop ks.chunk }
+          (ks', ⟨.ok c.length, true, some c⟩ :: r)
+        else ({ ks with armed := false }, [⟨.err .busy, false, none⟩])
+      | .poll => ({ ks with armed := false, sockq := ks.sockq.drop ks.chunk }, [⟨.ok c.length, false, some c⟩])
+    else if ks.eof then
+      match ks.drv with
+      | .uring => ({ ks with armed := false }, [⟨.ok 0, false, none⟩])
+      | .poll => ({ ks with armed := false }, [⟨.ok 0, false, some []⟩])
+    else (ks, [])
+
+def feed (s : Stream) (cq : List Cqe) : Stream :=
+  match s.op with
+  | some ⟨some rest⟩ => { s with op := some ⟨some (rest ++ cq)⟩ }
+  | _ => s
+
+def tokStr : Tok → String
+  | .pending => "pending"
+  | .item b => "item:" ++ hexOf b
+  | .err .busy => "err:busy"
+  | .err .cancelled => "err:cancelled"
+  | .err (.factory _) => "err:busy"
+  | .err (.os k) => s!"err:os{k}"
+  | .err .noBufId => "err:nobuf"
+  | .end_ => "end"
+  | .fuel => "fuel"
+
+def msNext (ks : KS) (s : Stream) : KS × Stream × Tok :=
+  let idle := s.op = none ∨ s.op = some ⟨none⟩
+  let fuel := ks.sockq.length + 4
+  -- what a new submission would see
+  let (ksSub, sub) : KS × Sub :=
+    match ks.drv with
+    | .uring =>
+      let (k', cq) := kernelRun fuel { ks with armed := true }
+      (k', .op cq)
+    | .poll =>
+      if ks.free = 0 then (ks, .fail 0)
+      else
+        let (k', cq) := kernelRun fuel { ks with armed := true, free := ks.free - 1 }
+        (k', .op cq)
+  let s1 := if idle then { s with subs := [sub] } else s
+  let liveBefore := match s1.op with | some ⟨some (_ :: _)⟩ => true | _ => false
+  let (tok, s2) := s1.next
+  let submitted := decide (s2.nsub > s1.nsub)
+  let ks1 := if submitted then ksSub else ks
+  let consumed := tok != .pending && (liveBefore || submitted)
+  let ks2 := match tok with
+    | .item _ => if ks1.hold then { ks1 with held := ks1.held + 1 } else { ks1 with free := ks1.free + 1 }
+    | .pending => ks1
+    | _ => if ks1.drv = .poll ∧ consumed then { ks1 with free := ks1.free + 1 } else ks1
+  (ks2, s2, tok)
+
+def msEvents : List String → KS → Stream → List String → List String
+  | [], _, _, acc => acc.reverse
+  | ev :: rest, ks, s, acc =>
+    if ev.startsWith "d" then
+      let ks1 := { ks with sockq := ks.sockq ++ (parseHex (ev.drop 1).toString).getD [] }
+      let (ks2, cq) := kernelRun (ks1.sockq.length + 4) ks1
+      msEvents rest ks2 (feed s cq) acc
+    else if ev = "s" then
+      let (ks2, cq) := kernelRun (ks.sockq.length + 4) { ks with eof := true }
+      msEvents rest ks2 (feed s cq) acc
+    else if ev = "c" then
+      if ks.armed then
+        msEvents rest { ks with armed := false } (feed s.cancel [⟨.err .cancelled, false, none⟩]) acc
+      else msEvents rest ks s.cancel acc
+    else if ev = "h" then msEvents rest { ks with hold := true } s acc
+    else if ev = "r" then msEvents rest { ks with hold := false, free := ks.free + ks.held, held := 0 } s acc
+    else
+      let (ks2, s2, tok) := msNext ks s
+      msEvents rest ks2 s2 (tokStr tok :: acc)
+
+/-- `num_of_bufs.next_power_of_two()` -/
+def nextPow2 (n : Nat) : Nat := if n ≤ 1 then 1 else if n ≤ 2 then 2 else if n ≤ 4 then 4 else if n ≤ 8 then 8 else 16
+
+def msLine (w : List String) : String :=
+  match w with
+  | ["ms", _, drv, nb, bl, len, evs] =>
+    let buflen := bl.toNat?.getD 0
+    let ks : KS := { drv := parseDrv drv, chunk := managedCap buflen (len.toNat?.getD 0),
+                     free := nextPow2 (nb.toNat?.getD 1), sockq := [], eof := false, armed := false, held := 0, hold := false }
+    " ".intercalate (msEvents (evs.splitOn ",") ks (Stream.new .bytes []) [])
+  | _ => "bad-op"
+
+end Ms
+
 /-! ## dispatch -/
 
 structure DState where
@@ -354,6 +506,10 @@ def step (st : DState) (line : String) : DState × String :=
   let w := words line
   match w with
   | "conc" :: _ => ({ fam := "conc" }, concLine w)
+  | "accept" :: _ => ({ fam := "accept" }, acceptLine w)
+  | "rmopen" :: _ => ({ fam := "rmo" }, rmoLine w)
+  | "rmo" :: _ => (st, rmoLine w)
+  | "ms" :: _ => ({ fam := "ms" }, msLine w)
   | "open" :: tp :: _ =>
     if tp = "udp" ∨ tp = "udg" then
       let (g, o) := dgramStep {} w
